@@ -318,13 +318,13 @@ pub fn judge(pool: &PoolB, res: &CallResult, call: &Call, cache_was_empty: bool)
     if res.ok {
         let d = pool.chain_defect[call.start].as_ref()?;
         let from_cache: Vec<&str> = res.events.iter().filter(|e| e.0).map(|e| e.1.as_str()).collect();
-        // the defective element was never looked at in this call because the certificate above it
-        // (or, for a link, the certificate carrying it) was taken from the verifier cache
-        let skipped_by_cache = if d.is_node {
-            d.path.len() >= 2 && from_cache.contains(&pool.members[d.path[d.path.len() - 2]].cert.hash.as_str())
-        } else {
-            from_cache.contains(&pool.members[d.at].cert.hash.as_str())
-        };
+        // the defective element (certificate `at`, or the link it carries) was never looked at in
+        // this call, because a certificate above it on the chain (or itself) was taken from the
+        // verifier cache: the cache vouched for a chain that was never validated down to genesis
+        let at_hash = pool.members[d.at].cert.hash.as_str();
+        let at_validated_here = res.events.iter().any(|e| !e.0 && e.1 == at_hash);
+        let skipped_by_cache =
+            !at_validated_here && d.path.iter().any(|i| from_cache.contains(&pool.members[*i].cert.hash.as_str()));
         // the link of a certificate validated in this call was judged against a served previous
         // certificate whose own check was then skipped because its hash field is a cache key
         let validated_here = res.events.iter().any(|e| !e.0 && e.1 == pool.members[d.at].cert.hash);
@@ -500,6 +500,15 @@ pub fn explore(pool: &PoolB, w: &World, bounds: &Bounds, threads: usize) -> Seam
             }
         }
         calls += depth_calls;
+        // the shortcut "re-create the cache through its public API" is validated on the first and the
+        // last new state of every depth: replaying the whole history from an empty cache must give
+        // exactly the same cache content
+        for st in next.first().into_iter().chain(next.last()) {
+            let (_, cache) = run_history(pool, vkey, &st.history);
+            if cache != st.cache {
+                rep.machinery_error(format!("replay divergence: history {} does not reproduce its cache state", history_json(pool, &st.history)));
+            }
+        }
         per_depth.push(json!({"calls_in_history": depth, "states_expanded": frontier.len(), "verify_chain_calls": depth_calls, "new_cache_states": next.len()}));
         frontier = next;
         if frontier.is_empty() {
